@@ -7,8 +7,9 @@
   every operation preserves WF (section "invariant"), so WF is a fact about every Poly the library hands out.
 -/
 import Proofs.Lemmas.PolyL
+import Proofs.Lemmas.PolyZ
 namespace Proofs.C16
-open Model Model.Poly Model.Py Proofs.PolyL
+open Model Model.Poly Model.Py Proofs.PolyL Proofs.PolyZ
 
 /-! ## binary operators + − ^ & | -/
 
@@ -706,6 +707,28 @@ theorem bitops_spec {a b : Poly} (hk : 0 < a.size) (ha : a.WF) (hb : b.WF) (h : 
   · rw [land_ofNat (hx i) (hy i)]; simp [coeffOp, Nat.ne_of_gt hk]
   · rw [lor_ofNat (hx i) (hy i)]; simp [coeffOp, Nat.ne_of_gt hk]
   · rw [lxor_ofNat (hx i) (hy i)]; simp [coeffOp, Nat.ne_of_gt hk]
+
+/-- `&`, `|`, `^` over the integers (k = 0) act coefficient by coefficient as the bitwise operations on infinite
+    two's-complement expansions (Spec.Poly.land/lor/lxor, Python's int semantics); a missing coefficient is 0 -/
+theorem bitops_coeff_Z {a b r : Poly} (hk : a.size = 0) (i : Nat) :
+    (binop .and a b = .ok r → r.e i = Spec.Poly.land (a.e i) (b.e i)) ∧
+    (binop .or a b = .ok r → r.e i = Spec.Poly.lor (a.e i) (b.e i)) ∧
+    (binop .xor a b = .ok r → r.e i = Spec.Poly.lxor (a.e i) (b.e i)) := by
+  refine ⟨fun h => ?_, fun h => ?_, fun h => ?_⟩ <;> rw [binop_coeff h] <;> simp only [coeffOp, hk, if_true]
+  · exact intBitOp_and _ _
+  · exact intBitOp_or _ _
+  · exact intBitOp_xor _ _
+
+/-- `&`, `|`, `^` over the integers refine the specification -/
+theorem bitops_spec_Z {a b : Poly} (hk : a.size = 0) (h : a.size = b.size) :
+    binop .and a b = .ok ⟨Spec.Poly.band a.ival b.ival, a.size⟩ ∧
+    binop .or a b = .ok ⟨Spec.Poly.bor a.ival b.ival, a.size⟩ ∧
+    binop .xor a b = .ok ⟨Spec.Poly.bxor a.ival b.ival, a.size⟩ := by
+  refine ⟨?_, ?_, ?_⟩ <;> rw [binop_eq_pointwise h] <;> congr 2 <;> apply pointwise_congr <;> intro i <;>
+    simp only [coeffOp, hk, if_true]
+  · exact intBitOp_and _ _
+  · exact intBitOp_or _ _
+  · exact intBitOp_xor _ _
 
 /-- unary minus and the shifts refine the specification, for every ring -/
 theorem neg_spec (a : Poly) : neg a = ⟨Spec.Poly.neg a.size a.ival, a.size⟩ := rfl
